@@ -43,7 +43,7 @@ func mkFreeIt(proto string, limit, pre, n, iters int) string {
 func genStress(tier string, emit func(string)) {
 	iters := 3000
 	if tier == "thorough" {
-		iters = 30000
+		iters = 12000
 	}
 	for _, proto := range []string{"map", "mapu", "tun", "conn"} {
 		for _, limit := range []int{1, 3} {
@@ -165,11 +165,13 @@ func genExhaustive(tier string, emit func(string)) {
 							stride := 1
 							switch {
 							case proto == "code" && tier == "quick":
-								stride = 197
+								stride = 293
 							case proto == "code":
-								stride = 7
+								stride = 23
 							case tier == "quick" && n == 3:
 								stride = 23
+							case n == 3:
+								stride = 3 // the racer scenarios below enumerate 3 requests in full
 							}
 							if cnt%stride != 1%stride {
 								return
@@ -231,6 +233,8 @@ func genRacers(tier string, emit func(string)) {
 				default:
 					stride = 23
 				}
+			} else if ops[1] == "o" || ops[2] == "o" {
+				stride = 3
 			}
 			thr := []thrSpec{{0, ops[0]}, {0, ops[1]}, {0, ops[2]}}
 			cnt := 0
@@ -246,7 +250,7 @@ func genRacers(tier string, emit func(string)) {
 	// 4 requests (3 of the client + 1 other, and 4 of the client): sampled enumeration
 	for _, c := range cfgs[:4] {
 		for _, last := range []string{"a", "o"} {
-			stride := 401
+			stride := 801
 			if tier == "quick" {
 				stride = 4001
 			}
@@ -288,7 +292,7 @@ func genRacers(tier string, emit func(string)) {
 	// free-running: 3, 4 and 8 requests at limit-2 and limit-1, repeated on fresh state
 	iters := 45
 	if tier == "thorough" {
-		iters = 3000
+		iters = 600
 	}
 	for _, proto := range []string{"conn", "tun", "map", "mapu", "code", "mapq"} {
 		for _, n := range []int{3, 4, 8} {
@@ -325,7 +329,7 @@ func genCtrlX(tier string, emit func(string)) {
 					}
 					stride := 1
 					if n == 3 && len(ops) == 2 {
-						stride = 37
+						stride = 151
 					}
 					cnt := 0
 					allInterleavings(n, steps, func(s []int) {
@@ -495,11 +499,11 @@ func generate(r *common.Rand, tier string, emit func(string)) {
 	genStress(tier, emit)
 	if tier == "thorough" {
 		genRandomInterleavings(r, 3000, emit)
-		genRandom(r, 12000, emit)
+		genRandom(r, 9000, emit)
 		genFree(r, 150, emit)
 	} else {
 		genRandomInterleavings(r, 300, emit)
-		genRandom(r, 2500, emit)
+		genRandom(r, 2000, emit)
 		genFree(r, 25, emit)
 	}
 }
